@@ -11,7 +11,7 @@ def _oct(v, width):
 
 def header(name: str, size: int, *, typeflag=b"0", visor=False, offset=0, text_pgs=0, fixup_pgs=0, word500=0, mode=0o644, mtime=0x5F5E1000,
            prefix: str = "", uname="root", gname="root", linkname=""):
-    nb = name.encode()
+    nb = name if isinstance(name, bytes) else name.encode()     # (a name is bytes on disk; it need not be valid UTF-8)
     assert len(nb) <= 100
     h = bytearray(512)
     h[0:len(nb)] = nb
@@ -22,7 +22,7 @@ def header(name: str, size: int, *, typeflag=b"0", visor=False, offset=0, text_p
     h[136:148] = _oct(mtime, 12)
     h[148:156] = b" " * 8
     h[156:157] = typeflag
-    lb = linkname.encode()
+    lb = linkname if isinstance(linkname, bytes) else linkname.encode()
     h[157:157 + len(lb)] = lb
     if visor:
         h[257:265] = b"visor  \0"
